@@ -201,12 +201,195 @@ def scan_hot_lines(prefix: str):
     return hot
 
 
+# --------------------------------------------------------------------------------------
+# thread pools / threads created by acryo code run as simulated jobs (never as uncontrolled real threads)
+# --------------------------------------------------------------------------------------
+import concurrent.futures as _cf
+
+_RealTPE = _cf.ThreadPoolExecutor
+_RealThread = threading.Thread
+
+
+class SimFuture:
+    def __init__(self, fn, args, kwargs):
+        self.fn, self.args, self.kwargs = fn, args, kwargs
+        self._done = False
+        self.value = None
+        self.exc = None
+        self.seq = -1
+        self._callbacks = []
+
+    # the director asks blocked_on.locked(): "is the thing this worker waits for still unavailable?"
+    def locked(self):
+        return not self._done
+
+    def done(self):
+        return self._done
+
+    def cancel(self):
+        return False
+
+    def cancelled(self):
+        return False
+
+    def running(self):
+        return not self._done
+
+    def _finish(self, ok, val):
+        if ok:
+            self.value = val
+        else:
+            self.exc = val
+        self._done = True
+        for cb in self._callbacks:
+            cb(self)
+
+    def add_done_callback(self, cb):
+        if self._done:
+            cb(self)
+        else:
+            self._callbacks.append(cb)
+
+    def _run_inline(self):
+        sim = _CURRENT_SIM
+        if sim is not None and self in sim.jobs:
+            sim.jobs.remove(self)
+        try:
+            self._finish(True, self.fn(*self.args, **self.kwargs))
+        except BaseException as e:  # noqa
+            self._finish(False, e)
+
+    def _wait(self):
+        sim = _CURRENT_SIM
+        w = sim.current if sim is not None else None
+        if not self._done:
+            if w is None or w.thread.ident != threading.get_ident():
+                self._run_inline()  # not inside a simulated task (graph construction, sequential reference)
+            else:
+                while not self._done:
+                    w.blocked_on = self
+                    sim._ev("W", w.task_ord, self.seq)
+                    w.yield_to_director()
+                    w.blocked_on = None
+
+    def result(self, timeout=None):
+        self._wait()
+        if self.exc is not None:
+            raise self.exc
+        return self.value
+
+    def exception(self, timeout=None):
+        self._wait()
+        return self.exc
+
+
+def _submit_job(fn, args, kwargs):
+    fut = SimFuture(fn, args, kwargs)
+    sim = _CURRENT_SIM
+    w = sim.current if sim is not None else None
+    if sim is None or sim.mode == "sequential" or w is None or w.thread.ident != threading.get_ident():
+        fut._run_inline()
+    else:
+        sim.job_seq += 1
+        fut.seq = sim.job_seq
+        sim.jobs.append(fut)
+        sim.stats["pool_jobs"] += 1
+        sim._ev("J", w.task_ord, fut.seq)
+    return fut
+
+
+class SimExecutor:
+    """Stand-in for concurrent.futures.ThreadPoolExecutor created by acryo code: every submitted callable becomes one
+    more schedulable (and pre-emptible) job of the simulation, run on an extra baton-passing worker."""
+
+    def __init__(self, max_workers=None, thread_name_prefix="", initializer=None, initargs=()):
+        self._futs = []
+        self._initializer, self._initargs = initializer, initargs
+
+    def submit(self, fn, /, *args, **kwargs):
+        f = _submit_job(fn, args, kwargs)
+        self._futs.append(f)
+        return f
+
+    def map(self, fn, *iterables, timeout=None, chunksize=1):
+        futs = [self.submit(fn, *a) for a in zip(*iterables)]
+
+        def gen():
+            for f in futs:
+                yield f.result()
+
+        return gen()
+
+    def shutdown(self, wait=True, cancel_futures=False):
+        if wait:
+            for f in self._futs:
+                f._wait()
+
+    def __enter__(self):
+        return self
+
+    def __exit__(self, *a):
+        self.shutdown(wait=True)
+        return False
+
+
+class _TPEFactory:
+    def __new__(cls, *a, **k):
+        f = sys._getframe(1)
+        if ACRYO_PREFIX and f.f_code.co_filename.startswith(ACRYO_PREFIX):
+            return SimExecutor(*a, **k)
+        return _RealTPE(*a, **k)
+
+
+class SimThread:
+    def __init__(self, group=None, target=None, name=None, args=(), kwargs=None, daemon=None):
+        self._target, self._args, self._kwargs = target, args, kwargs or {}
+        self.name = name or "simthread"
+        self.daemon = bool(daemon)
+        self._fut = None
+
+    def start(self):
+        self._fut = _submit_job(self._target or (lambda: None), tuple(self._args), dict(self._kwargs))
+
+    def join(self, timeout=None):
+        if self._fut is not None:
+            self._fut._wait()
+
+    def is_alive(self):
+        return self._fut is not None and not self._fut.done()
+
+
+class _ThreadFactory:
+    def __new__(cls, *a, **k):
+        f = sys._getframe(1)
+        if ACRYO_PREFIX and f.f_code.co_filename.startswith(ACRYO_PREFIX):
+            return SimThread(*a, **k)
+        return _RealThread(*a, **k)
+
+
+def _as_completed(fs, timeout=None):
+    fs = list(fs)
+    if fs and all(isinstance(f, SimFuture) for f in fs):
+        for f in fs:
+            f._wait()
+            yield f
+    else:
+        yield from _real_as_completed(fs, timeout)
+
+
+_real_as_completed = _cf.as_completed
+
+
 def install(acryo_prefix: str):
     """Called once in the zygote *before* acryo is imported."""
     global ACRYO_PREFIX, HOT_LINES
     ACRYO_PREFIX = acryo_prefix.rstrip("/") + "/"
     threading.Lock = _lock_factory
     threading.RLock = _rlock_factory
+    _cf.ThreadPoolExecutor = _TPEFactory
+    _cf.thread.ThreadPoolExecutor = _TPEFactory
+    _cf.as_completed = _as_completed
+    threading.Thread = _ThreadFactory
     HOT_LINES = scan_hot_lines(ACRYO_PREFIX)
 
 
@@ -254,7 +437,7 @@ class Worker:
         self.prev_op = None
         self.serialised = False
         self.stall = False
-        self.thread = threading.Thread(target=self._main, name=f"simw-{idx}", daemon=True)
+        self.thread = _RealThread(target=self._main, name=f"simw-{idx}", daemon=True)
         self.thread.start()
 
     def _main(self):
@@ -329,6 +512,9 @@ class Sim:
         self._decide_op = {}
         self.watch_arrays = watch_arrays
         self.race = None
+        self.jobs = []  # callables submitted by acryo code to a thread pool / started as threads, not yet started
+        self.job_seq = 0
+        self.xworkers = []  # extra workers that run those jobs (a pool has its own threads)
         # policy "stall": a slow node.  Every task that reaches a line of one per-run chosen family of acryo functions
         # (hash of the function name) is parked there -- at the next point where a thread switch is possible -- and is
         # not resumed as long as anything else can run.
@@ -360,7 +546,7 @@ class Sim:
         self.stats = dict(
             gets=0, nested_gets=0, tasks=0, events=0, switches=0, max_inflight=0,
             lock_blocks=0, cache_clears=0, cache_clears_inflight=0, dup_exec=0,
-            cache_get_overlap=0, resumes=0, hot_events=0, serialised_tasks=0, stalls=0, arrays_watched=0, held_array_changed=0,
+            cache_get_overlap=0, resumes=0, hot_events=0, serialised_tasks=0, stalls=0, arrays_watched=0, held_array_changed=0, pool_jobs=0,
         )
         self.sites = set()
         self.dup_mismatch = None
@@ -568,15 +754,17 @@ class Sim:
         ndone = 0
         ntotal = len(dsk)
         rr = 0
-        while ndone < ntotal or ghosts or any(w.state == "running" for w in self.workers):
+        while ndone < ntotal or ghosts or self.jobs or any(w.state == "running" for w in self.workers + self.xworkers):
             self.steps += 1
             if self.steps > self.max_steps:
                 raise SimStepLimit(f"more than {self.max_steps} scheduler steps")
             acts = []
-            for w in self.workers:
+            for w in self.workers + self.xworkers:
                 if w.state == "running":
                     if w.blocked_on is None or not w.blocked_on.locked():
                         acts.append(("resume", w, None))
+            for job in self.jobs:
+                acts.append(("job", None, job))
             idle = [w for w in self.workers if w.state == "idle"]
             if idle:
                 if self.mode == "prng" and len(ready) > 32:
@@ -591,12 +779,14 @@ class Sim:
                 for gi, g in enumerate(ghosts):
                     acts.append(("ghost", None, gi))
             if not acts:
-                if any(w.state == "running" for w in self.workers):
+                if any(w.state == "running" for w in self.workers + self.xworkers):
                     self._abort_workers()
                     raise SimDeadlock("all unfinished tasks are blocked on locks")
                 raise SimDeadlock("no runnable action but work remains")
 
             def desc(a):
+                if a[0] == "job":
+                    return ("job", gno, a[2].seq)
                 if a[0] == "start":
                     return ("start", gno, order[a[2]])
                 if a[0] == "ghost":
@@ -607,7 +797,31 @@ class Sim:
             kind, w, k = acts[ci]
             d = desc(acts[ci])
             self.rec_choices.append(d)
-            if kind in ("start", "ghost"):
+            if kind == "job":
+                job = k
+                self.jobs.remove(job)
+                xidle = [x for x in self.xworkers if x.state == "idle"]
+                if xidle:
+                    w = xidle[0]
+                else:
+                    w = Worker(self, 1000 + len(self.xworkers))
+                    self.xworkers.append(w)
+                w.ghost_of = None
+                w.serialised = False
+                w.job = (("job", job.seq), (lambda _d, j=job: j.fn(*j.args, **j.kwargs)), None)
+                w.key = ("job", job.seq)
+                w.task_ord = 10_000_000 + job.seq
+                w.get_no = gno
+                w.k = 0
+                w.pending = False
+                w.stall = False
+                w.prev_op = None
+                w.site = None
+                w.state = "running"
+                running[w] = job
+                self._ev("S", "job", job.seq)
+                self.order_log.update(repr((gno, "job", job.seq)).encode())
+            elif kind in ("start", "ghost"):
                 w = idle[0]
                 if kind == "start":
                     ready.remove(k)
@@ -656,6 +870,15 @@ class Sim:
             if w.state != "done":
                 # the task was pre-empted (or blocked): an lru_cache may evict at any instant, not only between tasks
                 self._fault_at_preempt(gno, w)
+            if w.state == "done" and isinstance(running.get(w), SimFuture):
+                job = running.pop(w)
+                ok, val = w.result
+                w.state = "idle"
+                w.result = None
+                w.job = None
+                self._ev("D", "job", job.seq, ok)
+                job._finish(ok, val)  # an exception is delivered to whoever asks for the result
+                continue
             if w.state == "done":
                 k = running.pop(w)
                 ok, val = w.result
@@ -702,7 +925,7 @@ class Sim:
                     if desc(a) == want:
                         return j
             # canonical fallback: resume lowest task first, else start lowest ready, else ghost
-            rank = {"resume": 0, "start": 1, "ghost": 2}
+            rank = {"resume": 0, "start": 1, "ghost": 2, "job": 1}
             return min(range(len(acts)), key=lambda j: (rank[acts[j][0]], desc(acts[j])[2]))
         rng = self.rng
         pol = self.policy
@@ -750,7 +973,7 @@ class Sim:
             prio = self._pct_prio
             best = None
             for j, a in enumerate(acts):
-                widx = a[1].idx if a[0] == "resume" else idle[0].idx
+                widx = a[1].idx if a[0] == "resume" else (idle[0].idx if idle else 999)
                 if widx not in prio:
                     prio[widx] = rng.random() + 1.0
                 p = prio[widx]
@@ -856,7 +1079,9 @@ class Sim:
         guard = 0
         while True:
             progressed = False
-            for w2 in self.workers:
+            for job in list(self.jobs):
+                job._run_inline()  # pending pool jobs are completed so that waiting tasks can finish
+            for w2 in self.workers + self.xworkers:
                 if w2.state == "running" and (w2.blocked_on is None or not w2.blocked_on.locked()):
                     w2.sem.release()
                     self.director_sem.acquire()
@@ -866,10 +1091,11 @@ class Sim:
                     w2.result = None
                     w2.job = None
             guard += 1
-            if not any(w2.state == "running" for w2 in self.workers):
+            if not any(w2.state == "running" for w2 in self.workers + self.xworkers):
                 break
             if not progressed or guard > self.max_steps:
                 self.workers = [w2 for w2 in self.workers if w2.state != "running"]
+                self.xworkers = [w2 for w2 in self.xworkers if w2.state != "running"]
                 break
 
     def _abort_workers(self):
